@@ -42,8 +42,11 @@ func EvalRead(reader string, data []byte, plan simio.ReadPlan) (canon.Outcome, *
 }
 
 func mediaFor(format string) []string {
-	if format == "ts" {
+	switch format {
+	case "ts":
 		return []string{"plain", "seekable", "bufio"}
+	case "ttml":
+		return []string{"plain", "bytereader"} // encoding/xml reads an io.ByteReader directly, without its own buffering
 	}
 	return []string{"plain"}
 }
